@@ -22,6 +22,8 @@ type mcWorld struct {
 	Reconnect []int
 	// AfterReply is called in the client's thread after each reply.
 	AfterReply func(client, idx int, o sched.Outcome)
+	// BeforeSend is called in the client's thread right before a request is sent.
+	BeforeSend func(client, idx int)
 	// OnReconnect is called in the client's thread right after it re-dialled.
 	OnReconnect func(client int)
 	Port        string
@@ -64,6 +66,9 @@ func (w *mcWorld) body() {
 					if w.OnReconnect != nil {
 						w.OnReconnect(i)
 					}
+				}
+				if w.BeforeSend != nil {
+					w.BeforeSend(i, j)
 				}
 				r := cl.Do(cmd...)
 				w.Replies[i] = append(w.Replies[i], r)
